@@ -7,11 +7,11 @@ EXTENDS TLSGate, Json
 CONSTANTS TraceFile, Diagnose
 VARIABLES l, cfg
 Trace == ndJsonDeserialize(TraceFile)
-Cfg0 == [rule |-> FALSE, pass |-> FALSE]
+Cfg0 == [rule |-> FALSE, pass |-> FALSE, custom |-> ""]
 Init == l = 1 /\ cfg = Cfg0
 Handle(e) ==
-  CASE e.ev = "scenario" -> cfg' = [rule |-> e.rule, pass |-> e.pass]
-    [] e.ev = "tlsclient" -> ClientOK(e, cfg) /\ UNCHANGED cfg
+  CASE e.ev = "scenario" -> cfg' = [rule |-> e.rule, pass |-> e.pass, custom |-> e.custom]
+    [] e.ev = "tlsclient" -> (IF cfg.custom \in {"", "verify"} THEN ClientOK(e, cfg) ELSE ClientOKCustom(e, cfg)) /\ UNCHANGED cfg
     [] e.ev = "probe"     -> ContainedOK(e) /\ UNCHANGED cfg
     [] e.ev = "point"     -> UNCHANGED cfg
     [] OTHER -> FALSE
